@@ -19,7 +19,7 @@ import numpy as np
 from common import *
 
 PROP_MODULES = ["HvsrVerif.Props.C19"]
-BRIDGE_MODULES = []
+BRIDGE_MODULES = ["HvsrVerif.Bridge.PyFft"]
 EXE = "drv_c19"
 RATES = [100, 250, 500]
 MAX_PARALLEL = 8
